@@ -55,15 +55,18 @@ def build(config="asan", programs=(), extra_defs="", cc=None, flags=None, tag=No
     key = hashlib.sha256((repo_hash() + config + ccn + fl + extra_defs).encode()).hexdigest()[:12]
     d = os.path.join(BUILD, "%s-%s" % (tag or config, key))
     os.makedirs(d, exist_ok=True)
+    os.utime(d, None)              # in use (see clean_old_builds)
     inc = "-I%s/include -I%s" % (REPO, HARNESS)
     defs = "-DBINSON_PARSER_WITH_PRINT -D%s %s" % (GUARD, extra_defs)
     objs = []
     for src in LIB_C:
         o = os.path.join(d, os.path.basename(src) + ".o")
         if not os.path.exists(o):
-            r = sh("%s -std=c99 %s %s %s -c %s/%s -o %s" % (ccn, fl, defs, inc, REPO, src, o), capture_output=True, text=True)
+            tmp = "%s.tmp%d" % (o, os.getpid())      # atomic: checks may run concurrently
+            r = sh("%s -std=c99 %s %s %s -c %s/%s -o %s" % (ccn, fl, defs, inc, REPO, src, tmp), capture_output=True, text=True)
             if r.returncode != 0:
                 raise Infra("repository source %s does not compile (%s):\n%s" % (src, config, r.stderr[-2000:]))
+            os.replace(tmp, o)
         objs.append(o)
     cppo = None
     for prog in programs:
@@ -72,27 +75,38 @@ def build(config="asan", programs=(), extra_defs="", cc=None, flags=None, tag=No
             continue
         srcc = os.path.join(HARNESS, prog + ".c")
         srcpp = os.path.join(HARNESS, prog + ".cpp")
+        tmpx = "%s.tmp%d" % (exe, os.getpid())
         if os.path.exists(srcc):
-            r = sh("%s -std=gnu99 %s %s %s %s %s -o %s" % (ccn, fl, defs, inc, srcc, " ".join(objs), exe), capture_output=True, text=True)
+            r = sh("%s -std=gnu99 %s %s %s %s %s -o %s" % (ccn, fl, defs, inc, srcc, " ".join(objs), tmpx), capture_output=True, text=True)
         else:
             if cppo is None:
                 cppo = os.path.join(d, "binson.cpp.o")
                 if not os.path.exists(cppo):
-                    r = sh("%s -std=c++11 %s %s %s -c %s/%s -o %s" % (cxxn, fl, defs, inc, REPO, LIB_CPP[0], cppo), capture_output=True, text=True)
+                    tmpo = "%s.tmp%d" % (cppo, os.getpid())
+                    r = sh("%s -std=c++11 %s %s %s -c %s/%s -o %s" % (cxxn, fl, defs, inc, REPO, LIB_CPP[0], tmpo), capture_output=True, text=True)
                     if r.returncode != 0:
                         raise Infra("repository source binson.cpp does not compile:\n%s" % r.stderr[-2000:])
-            r = sh("%s -std=c++11 %s %s %s %s %s %s -o %s" % (cxxn, fl, defs, inc, srcpp, cppo, " ".join(objs), exe), capture_output=True, text=True)
+                    os.replace(tmpo, cppo)
+            r = sh("%s -std=c++11 %s %s %s %s %s %s -o %s" % (cxxn, fl, defs, inc, srcpp, cppo, " ".join(objs), tmpx), capture_output=True, text=True)
         if r.returncode != 0:
             raise Infra("harness %s does not compile against the current tree:\n%s" % (prog, r.stderr[-3000:]))
+        os.replace(tmpx, exe)
     return d
 
 
-def clean_old_builds(keep=6):
+def clean_old_builds(keep=6, min_age_s=3 * 3600):
+    """removes build directories that no check has used for hours (never one that a concurrently running check may
+    still be executing from: build() refreshes the directory's mtime on every use)"""
     if not os.path.isdir(BUILD):
         return
+    now = time.time()
     ds = sorted((os.path.join(BUILD, x) for x in os.listdir(BUILD)), key=os.path.getmtime)
     for d in ds[:-keep]:
-        shutil.rmtree(d, ignore_errors=True)
+        try:
+            if now - os.path.getmtime(d) > min_age_s:
+                shutil.rmtree(d, ignore_errors=True)
+        except OSError:
+            pass
 
 
 # ------------------------------------------------------------------ TLC
@@ -101,7 +115,7 @@ TLC_JAR = "/opt/veriftools/tla/tla2tools.jar:/opt/veriftools/tla/CommunityModule
 
 def tlc_cmd(module, cfg, workers=None, metadir=None, extra="", heap="8g", simulate=None):
     workers = workers or NCPU
-    return ("java -XX:+UseParallelGC -Xss512m -Xmx%s -cp %s tlc2.TLC -workers %s -metadir %s -config %s %s %s %s" %
+    return ("java -XX:+UseParallelGC -Xss512m -Xmx%s -cp %s tlc2.TLC -noGenerateSpecTE -workers %s -metadir %s -config %s %s %s %s" %
             (heap, TLC_JAR, workers, metadir, cfg, ("-simulate " + simulate) if simulate else "", extra, module))
 
 
